@@ -5267,6 +5267,15 @@ class Arc(Curve):
             if self.start == self.end and self.sweep == 0:
                 # This is equivalent of omitting the segment
                 return [self.start] * len(positions)
+            if self.sweep == 0:
+                # Zero radius: the arc is the straight line between its end points (SVG F.6.2).
+                return [
+                    Point(
+                        self.start.x + (self.end.x - self.start.x) * pos,
+                        self.start.y + (self.end.y - self.start.y) * pos,
+                    )
+                    for pos in positions
+                ]
 
             start_t = self.get_start_t()
             return [
@@ -5290,6 +5299,10 @@ class Arc(Curve):
 
         if self.start == self.end and self.sweep == 0:
             xy[:, 0], xy[:, 1] = self.start
+        elif self.sweep == 0:
+            # Zero radius: the arc is the straight line between its end points (SVG F.6.2).
+            xy[:, 0] = self.start.x + (self.end.x - self.start.x) * positions
+            xy[:, 1] = self.start.y + (self.end.y - self.start.y) * positions
         else:
             t = self.get_start_t() + self.sweep * positions
 
@@ -5347,11 +5360,12 @@ class Arc(Curve):
         integration, and in that case it's simpler to just do a geometric
         approximation, as for cubic Bézier curves.
         """
-        if self.sweep == 0:
-            return 0
         if self.start == self.end and self.sweep == 0:
             # This is equivalent of omitting the segment
             return 0
+        if self.sweep == 0:
+            # Zero radius: the arc is the straight line between its end points (SVG F.6.2).
+            return Point.distance(self.start, self.end)
         a = self.rx
         b = self.ry
         d = abs(a - b)
@@ -5685,7 +5699,12 @@ class Arc(Curve):
         Code from: https://github.com/mathandy/svgpathtools
         """
         if self.sweep == 0:
-            return self.start.x, self.start.y, self.end.x, self.end.y
+            return (
+                min(self.start.x, self.end.x),
+                min(self.start.y, self.end.y),
+                max(self.start.x, self.end.x),
+                max(self.start.y, self.end.y),
+            )
         phi = self.get_rotation().as_radians
         if cos(phi) == 0:
             atan_x = tau / 4.0
